@@ -474,7 +474,9 @@ def expand(arg):
                              dict(trec=trec, hist=[list(e) for e in hist],
                                   ev=list(ev)), viol[1], viol[2])
                 continue
-            out.append((key, hist + [ev]))
+            out.append((hashlib.blake2b(repr(key).encode(),
+                                        digest_size=16).digest(),
+                        hist + [ev]))
         sh.hist["expanded-states"] += 1
     sh.extra["succ"] = out
     return sh
@@ -533,47 +535,67 @@ def main(ctx):
     capped = None
     sample_hist = []
     t0 = time.time()
-    # a fresh forked process per chunk: outcomes depend on the chunk only
-    pool = multiprocessing.get_context("fork").Pool(ctx.jobs,
-                                                    maxtasksperchild=1)
-    try:
-        # probe the initial state
-        sh = probe_states((trec, [[]]))
-        rep.absorb("probe", sh.pack())
-        while frontier and depth < max_depth:
-            if time.time() - t0 > budget:
-                capped = "time budget %ds at depth %d" % (budget, depth)
-                break
-            chunks = common.chunks(frontier, ctx.jobs)
-            results = pool.map(_expand_packed, [(trec, ch, menu)
-                                                for ch in chunks])
-            new = []
-            for packed, succ in results:
+    # a fresh forked process per chunk: outcomes depend on the chunk only.
+    # Chunks are small (bounded memory per worker), successor keys come back
+    # as 128-bit digests of the canonical form, and the time budget and state
+    # cap are honoured inside a depth level as well.
+    CH = 200
+
+    def pieces(lst):
+        return [lst[i:i + CH] for i in range(0, len(lst), CH)] or []
+
+    sh = probe_states((trec, [[]]))
+    rep.absorb("probe", sh.pack())
+    partial = None
+    while frontier and depth < max_depth and not capped:
+        new = []
+        gen = common.fork_map(_expand_packed,
+                              [(trec, ch, menu) for ch in pieces(frontier)],
+                              ctx.jobs)
+        done = 0
+        try:
+            for idx, (packed, succ) in gen:
+                done += 1
                 rep.absorb("bfs-depth%d" % (depth + 1), packed)
                 for key, hist in succ:
                     transitions += 1
                     if key not in seen:
                         seen[key] = hist
                         new.append(hist)
+                if time.time() - t0 > budget:
+                    capped = "time budget %ds inside depth %d" % (budget,
+                                                                  depth + 1)
+                elif len(seen) > max_states:
+                    capped = "state cap %d inside depth %d" % (max_states,
+                                                               depth + 1)
+                if capped or rep.viol:
+                    break
+        finally:
+            gen.close()
+        n_pieces = len(pieces(frontier))
+        if done == n_pieces:
             depth += 1
-            if len(seen) > max_states:
-                capped = "state cap %d at depth %d" % (max_states, depth)
-            # probe battery on every new state
-            pres = pool.map(_probe_packed, [(trec, ch) for ch in
-                                            common.chunks(new, ctx.jobs)])
-            for packed in pres:
+        else:
+            partial = "%d of %d chunks of depth %d expanded" % (
+                done, n_pieces, depth + 1)
+        # probe battery on every new state (also those of a partial level)
+        gen = common.fork_map(_probe_packed,
+                              [(trec, ch) for ch in pieces(new)], ctx.jobs)
+        try:
+            for idx, packed in gen:
                 rep.absorb("probe", packed)
-            if new:
-                sample_hist = new[len(new) // 2]
-            frontier = new
-            states = len(seen)
-            if rep.viol or capped:
-                break
-        if not frontier:
-            fix = True
-    finally:
-        pool.terminate()
-        pool.join()
+                if rep.viol:
+                    break
+        finally:
+            gen.close()
+        if new:
+            sample_hist = new[len(new) // 2]
+        frontier = new
+        states = len(seen)
+        if rep.viol:
+            break
+    if not frontier and not capped:
+        fix = True
     rep.nt = states
     rep.exhaustive = capped is None
     rep.samples = [dict(history=[list(map(str, e)) for e in sample_hist],
@@ -585,6 +607,8 @@ def main(ctx):
         "depth_completed": depth,
         "fixpoint_reached": fix,
         "cap_hit": capped,
+        "partial_level": partial,
+        "state_keys": "128-bit BLAKE2b digests of the canonical form",
         "toy_curve": trec,
         "event_menu": "level %d" % menu,
         "explanation": "every transition is executed on the real objects "
